@@ -146,14 +146,14 @@ def run(worker, of, limit, survivors_of=None, res_name="results.jsonl", plan_nam
 def one(mid, props):
     """Applies one planned mutant in a scratch tree and runs the given quick checks against it (from a copy of the
     current /verif working tree, so strengthened checks can be tried before committing)."""
-    p = [json.loads(l) for l in open(V + "/out/mutants/plan.jsonl") if json.loads(l)["id"] == mid][0]
+    p = [json.loads(l) for f in ("plan.jsonl", "plan-ops2.jsonl") if os.path.exists(V + "/out/mutants/" + f) for l in open(V + "/out/mutants/" + f) if json.loads(l)["id"] == mid][0]
     repo, vw = "/tmp/mr9", "/tmp/vw9"
     sh("git -C /repo worktree remove --force %s; rm -rf %s %s" % (repo, repo, vw), "/")
     rc, out = sh("git -C /repo worktree add --detach %s HEAD" % repo, "/")
     assert rc == 0, out
     sh("mkdir -p %s && rsync -a --exclude out --exclude .git --exclude evidence /verif/ %s/ && mkdir -p %s/out %s/evidence" % (vw, vw, vw, vw), "/")
     try:
-        rc, out = sh("/verif/out/mutgen -file /repo/%s -apply %d -out %s" % (p["file"], p["n"], os.path.join(repo, p["file"])), "/")
+        rc, out = sh("/verif/out/mutgen %s -file /repo/%s -apply %d -out %s" % ("-ops2" if p.get("ops2") else "", p["file"], p["n"], os.path.join(repo, p["file"])), "/")
         assert rc == 0, out
         print(sh("git diff", repo)[1][:1500])
         for pid in props:
